@@ -479,6 +479,19 @@ func (c *Ctx) assert(label string, t *Term, pos token.Pos) {
 		case Sat:
 			res.Status = "violated"
 			res.Model = m
+			// prefer a counterexample with small input values (uninterpreted functions such as
+			// digests and logarithm mantissas are replaced by the real functions in concrete
+			// re-execution, where small arguments behave typically): one extra query, only on
+			// the violation path
+			small := Not(t)
+			for _, v := range c.vars {
+				if v.Op == OpVar && !strings.HasPrefix(v.Name, "uf_") && !strings.HasPrefix(v.Name, "binlog_") && (v.Hi == nil || v.Hi.Cmp(Pow2(16)) > 0) && v.Lo != nil && v.Lo.Sign() >= 0 {
+					small = And(small, Le(v, CInt(new(big.Int).Sub(Pow2(16), bigOne))))
+				}
+			}
+			if r2, m2 := c.check(small); r2 == Sat && m2 != nil {
+				res.Model = m2
+			}
 		default:
 			res.Status = "unknown"
 		}
